@@ -1,1 +1,512 @@
-fn main() { eprintln!("not built yet"); std::process::exit(2); }
+//! C05 — parsers are total: every public open/parse/list/read entry point of the MPQ, M2/skin/
+//! anim, ADT, WMO, BLP, DBC, WDT and WDL crates returns a value or an error in bounded time, without
+//! panicking, aborting, overflowing the stack or requesting memory out of proportion to the input.
+//!
+//! Bounded exhaustive exploration: per format a set of valid seed files (written by the crate's own
+//! writer/builder) x every deviation of a finite alphabet (prefix lengths, boundary values at every
+//! 32-bit field position of headers / chunk headers / tables incl. fields inside the encrypted MPQ
+//! tables, chunk delete/duplicate/swap, pairs of header-level fields in thorough).  Monitors only.
+use serde_json::{json, Value};
+use std::io::{Read, Seek, SeekFrom};
+use std::sync::OnceLock;
+use vcore::*;
+
+mod core;
+mod fmt_blp;
+mod fmt_dbc;
+mod fmt_mpq;
+mod fmt_tree;
+mod fmt_wd;
+mod sandbox;
+mod seed;
+mod seeds_adt;
+mod seeds_m2;
+mod seeds_wmo;
+
+use crate::core::*;
+use crate::sandbox::{Recorder, Sandbox};
+
+#[global_allocator]
+static A: vcore::alloc::Counting = vcore::alloc::Counting;
+
+static THOROUGH: OnceLock<bool> = OnceLock::new();
+pub fn thorough() -> bool {
+    *THOROUGH.get().unwrap_or(&false)
+}
+
+/// per-case time limit inside the sandbox (the engine's watchdog of 60 s stays the outer bound)
+const CASE_SECS: u32 = 50;
+
+// ------------------------------------------------------------------ counting reader
+
+/// `Read + Seek` over the input that remembers the furthest byte handed to the parser
+pub struct CountingCursor<'a> {
+    data: &'a [u8],
+    pos: u64,
+    pub max_end: u64,
+}
+impl<'a> CountingCursor<'a> {
+    pub fn new(data: &'a [u8]) -> Self {
+        CountingCursor { data, pos: 0, max_end: 0 }
+    }
+}
+impl Read for CountingCursor<'_> {
+    fn read(&mut self, buf: &mut [u8]) -> std::io::Result<usize> {
+        let len = self.data.len() as u64;
+        let start = self.pos.min(len) as usize;
+        let n = buf.len().min(self.data.len() - start);
+        buf[..n].copy_from_slice(&self.data[start..start + n]);
+        self.pos += n as u64;
+        if n > 0 {
+            self.max_end = self.max_end.max(self.pos);
+        }
+        Ok(n)
+    }
+}
+impl Seek for CountingCursor<'_> {
+    fn seek(&mut self, p: SeekFrom) -> std::io::Result<u64> {
+        let (base, off) = match p {
+            SeekFrom::Start(n) => {
+                self.pos = n;
+                return Ok(n);
+            }
+            SeekFrom::End(n) => (self.data.len() as u64, n),
+            SeekFrom::Current(n) => (self.pos, n),
+        };
+        match base.checked_add_signed(off) {
+            Some(n) => {
+                self.pos = n;
+                Ok(n)
+            }
+            None => Err(std::io::Error::new(std::io::ErrorKind::InvalidInput, "invalid seek to a negative or overflowing position")),
+        }
+    }
+}
+
+// ------------------------------------------------------------------ formats
+
+pub trait Format: Sync {
+    fn name(&self) -> &'static str;
+    fn seeds(&self) -> Vec<Seed>;
+    /// run every entry point of the format on `input` (inside the sandbox child)
+    fn run(&self, seed: &Seed, input: &[u8], rec: &mut Recorder, scratch: &std::path::Path);
+    /// false where no entry point reads through a counting reader (path / slice APIs)
+    fn measures_consumption(&self) -> bool {
+        true
+    }
+}
+
+/// Seed of an IFF-style chunked file: chunk map by the independent walker, sites = magic and size
+/// of every chunk plus the 32-bit positions of the first `head` payload bytes.
+/// `nested`: (magic as stored, header bytes before the sub-chunks).
+pub fn chunked_seed(fmt: &str, name: &str, bytes: Vec<u8>, aux: u32, nested: &[(&str, usize)], head_q: usize, head_t: usize) -> Seed {
+    let head = if thorough() { head_t } else { head_q };
+    let mut chunks = vec![];
+    walk_chunks(&bytes, 0, bytes.len(), None, &mut chunks);
+    let top = chunks.len();
+    for k in 0..top {
+        if let Some((_, hl)) = nested.iter().find(|(m, _)| *m == chunks[k].magic) {
+            let (s, e) = (chunks[k].off + 8 + hl, chunks[k].off + chunks[k].total);
+            if s <= e {
+                walk_chunks(&bytes, s, e, Some(k), &mut chunks);
+            }
+        }
+    }
+    let mut s = Seed { fmt: fmt.into(), name: name.into(), bytes, aux, ..Default::default() };
+    s.chunks = chunks;
+    let mut sites = vec![];
+    for k in 0..s.chunks.len() {
+        let c = s.chunks[k].clone();
+        let nm = s.chunk_name(k);
+        let is_nested = nested.iter().find(|(m, _)| *m == c.magic);
+        // header-level: top-level size fields and the payload of the first two chunks; container headers
+        let header = c.parent.is_none() && (k < 3 || is_nested.is_some());
+        let h = match is_nested {
+            Some((_, hl)) => (*hl).max(head),
+            None => head,
+        };
+        chunk_sites(&s.bytes, &c, &nm, h, header, &mut sites);
+        if c.parent.is_none() && !header {
+            // size fields of all top-level chunks are header-level too
+            let n = sites.len();
+            for st in sites[n.saturating_sub(2 + h / 4)..].iter_mut() {
+                if st.name.ends_with(".size") {
+                    st.header = true;
+                }
+            }
+        }
+    }
+    s.sites = sites;
+    s
+}
+
+/// Seed of a non-chunked file: every 32-bit position of the first `header_len` bytes is a
+/// header-level site, every further aligned position a table-level site (strided by the budget).
+pub fn flat_seed(fmt: &str, name: &str, bytes: Vec<u8>, aux: u32, header_len: usize) -> Seed {
+    let mut s = Seed { fmt: fmt.into(), name: name.into(), bytes, aux, ..Default::default() };
+    let mut o = 0;
+    while o + 4 <= s.bytes.len() {
+        let header = o < header_len;
+        s.sites.push(Site { off: o, name: if header { format!("header+{o:#x}") } else { format!("body+{o:#x}") }, enc: None, header });
+        o += 4;
+    }
+    s
+}
+
+pub fn chunk_ops(s: &Seed, max: usize) -> Vec<Dev> {
+    let idx: Vec<usize> = (0..s.chunks.len()).collect();
+    let idx = stride(&idx, max);
+    let mut v = vec![];
+    for &k in &idx {
+        v.push(Dev::ChunkDel(k));
+    }
+    for &k in &idx {
+        v.push(Dev::ChunkDup(k));
+    }
+    for &k in &idx {
+        v.push(Dev::ChunkSwap(k));
+    }
+    v
+}
+
+fn all_formats() -> Vec<Box<dyn Format>> {
+    vec![
+        Box::new(fmt_wd::Wdt),
+        Box::new(fmt_wd::Wdl),
+        Box::new(fmt_dbc::Dbc),
+        Box::new(fmt_blp::Blp),
+        Box::new(fmt_tree::Skin),
+        Box::new(fmt_tree::Anim),
+        Box::new(fmt_tree::M2),
+        Box::new(fmt_tree::WmoRoot),
+        Box::new(fmt_tree::WmoGroup),
+        Box::new(fmt_tree::Adt),
+        Box::new(fmt_mpq::Ptch),
+        Box::new(fmt_mpq::Codec),
+        Box::new(fmt_mpq::Mpq),
+    ]
+}
+const FORMAT_NAMES: [&str; 13] = ["wdt", "wdl", "dbc", "blp", "skin", "anim", "m2", "wmo_root", "wmo_group", "adt", "ptch", "codec", "mpq"];
+
+// ------------------------------------------------------------------ panic site -> function cache
+
+/// (file, line) of a panic inside /repo -> innermost /repo function.  A pure function of the
+/// binary; learnt by re-running a panicking case once in a child that symbolizes a backtrace
+/// (~0.4 s), shared between the worker processes through a file next to the executable.
+struct SymCache {
+    map: std::sync::Mutex<std::collections::HashMap<(String, u32), String>>,
+    path: Option<std::path::PathBuf>,
+}
+impl SymCache {
+    fn new() -> SymCache {
+        let path = std::env::current_exe().ok().and_then(|exe| {
+            let md = std::fs::metadata(&exe).ok()?;
+            let mt = md.modified().ok()?.duration_since(std::time::UNIX_EPOCH).ok()?.as_nanos();
+            let dir = exe.parent()?.to_path_buf();
+            let stem = exe.file_name()?.to_string_lossy().to_string();
+            let mine = format!("{stem}.symcache-{}-{}", md.len(), mt);
+            if let Ok(rd) = std::fs::read_dir(&dir) {
+                for e in rd.flatten() {
+                    let n = e.file_name().to_string_lossy().to_string();
+                    if n.starts_with(&format!("{stem}.symcache-")) && n != mine {
+                        let _ = std::fs::remove_file(e.path());
+                    }
+                }
+            }
+            Some(dir.join(mine))
+        });
+        let c = SymCache { map: Default::default(), path };
+        c.reload();
+        c
+    }
+    fn reload(&self) {
+        let Some(p) = &self.path else { return };
+        let Ok(txt) = std::fs::read_to_string(p) else { return };
+        let mut m = self.map.lock().unwrap();
+        for l in txt.lines() {
+            let f: Vec<&str> = l.split('\t').collect();
+            if f.len() == 3 {
+                if let Ok(n) = f[1].parse() {
+                    m.insert((f[0].to_string(), n), f[2].to_string());
+                }
+            }
+        }
+    }
+    fn get(&self, file: &str, line: u32) -> Option<String> {
+        let k = (file.to_string(), line);
+        if let Some(v) = self.map.lock().unwrap().get(&k) {
+            return Some(v.clone());
+        }
+        self.reload();
+        self.map.lock().unwrap().get(&k).cloned()
+    }
+    fn put(&self, file: &str, line: u32, func: &str) {
+        self.map.lock().unwrap().insert((file.to_string(), line), func.to_string());
+        if let Some(p) = &self.path {
+            use std::io::Write;
+            if let Ok(mut f) = std::fs::OpenOptions::new().create(true).append(true).open(p) {
+                let _ = f.write_all(format!("{file}\t{line}\t{func}\n").as_bytes());
+            }
+        }
+    }
+}
+fn in_repo(file: &str) -> bool {
+    file.starts_with("file-formats/")
+}
+
+// ------------------------------------------------------------------ the space of one format
+
+struct FormatSpace {
+    fmt: Box<dyn Format>,
+    seeds: Vec<Seed>,
+    spaces: Vec<SeedSpace>,
+    /// cumulative case counts
+    cum: Vec<u64>,
+    sandbox: OnceLock<(Scratch, Sandbox)>,
+    syms: OnceLock<SymCache>,
+}
+
+/// site / chunk-op budgets per seed
+struct Budget {
+    sites: usize,
+    vals: Vec<usize>,
+    chunk_ops: usize,
+    pair_sites: usize,
+    pair_seeds: usize,
+}
+
+impl FormatSpace {
+    fn new(fmt: Box<dyn Format>, tier: Tier) -> FormatSpace {
+        let _ = THOROUGH.set(tier == Tier::Thorough);
+        let mut seeds = fmt.seeds();
+        seeds.sort_by_key(|s| s.bytes.len());
+        let b = match tier {
+            Tier::Quick => Budget { sites: 120, vals: (0..VALS.len()).collect(), chunk_ops: 24, pair_sites: 0, pair_seeds: 0 },
+            Tier::Thorough => Budget { sites: 1600, vals: (0..VALS.len()).collect(), chunk_ops: 400, pair_sites: 40, pair_seeds: 2 },
+        };
+        // the seeds with the most header-level sites carry the 2-deviation class
+        let mut by_hdr: Vec<usize> = (0..seeds.len()).collect();
+        by_hdr.sort_by_key(|&i| std::cmp::Reverse(seeds[i].sites.iter().filter(|s| s.header).count().min(b.pair_sites.max(1)) * 1_000_000 + (1_000_000 - seeds[i].bytes.len().min(999_999))));
+        let pair_seeds: Vec<usize> = by_hdr.into_iter().take(b.pair_seeds).collect();
+        let mut spaces = vec![];
+        for (i, s) in seeds.iter().enumerate() {
+            let all: Vec<usize> = (0..s.sites.len()).collect();
+            // header-level sites are always kept; the rest is strided to the budget
+            let hdr: Vec<usize> = all.iter().copied().filter(|&k| s.sites[k].header).collect();
+            let rest: Vec<usize> = all.iter().copied().filter(|&k| !s.sites[k].header).collect();
+            let hdr = stride(&hdr, b.sites);
+            let mut field_sites = hdr.clone();
+            field_sites.extend(stride(&rest, b.sites.saturating_sub(hdr.len().min(b.sites / 2))));
+            field_sites.sort();
+            field_sites.dedup();
+            let pair_sites = if pair_seeds.contains(&i) { stride(&hdr, b.pair_sites) } else { vec![] };
+            spaces.push(SeedSpace {
+                prefixes: prefix_lengths(s.bytes.len(), tier == Tier::Thorough),
+                field_sites,
+                vals: b.vals.clone(),
+                chunk_ops: chunk_ops(s, b.chunk_ops),
+                pair_sites,
+            });
+        }
+        let mut cum = vec![0u64];
+        for sp in &spaces {
+            cum.push(cum.last().unwrap() + sp.len());
+        }
+        FormatSpace { fmt, seeds, spaces, cum, sandbox: OnceLock::new(), syms: OnceLock::new() }
+    }
+    fn locate(&self, i: u64) -> (usize, Dev) {
+        let k = match self.cum.binary_search(&i) {
+            Ok(k) => k,
+            Err(k) => k - 1,
+        };
+        let k = k.min(self.seeds.len() - 1);
+        (k, self.spaces[k].dev(i - self.cum[k]))
+    }
+    fn sb(&self) -> &(Scratch, Sandbox) {
+        self.sandbox.get_or_init(|| {
+            let sc = Scratch::new(&format!("c05-{}", self.fmt.name()));
+            let sb = Sandbox::new(&sc.path("child-stderr.txt"), CASE_SECS);
+            (sc, sb)
+        })
+    }
+    fn axes(&self) -> Value {
+        json!({
+            "seeds": self.seeds.len(),
+            "seed_names": self.seeds.iter().map(|s| format!("{} ({} B, {} sites, {} chunks)", s.name, s.bytes.len(), s.sites.len(), s.chunks.len())).collect::<Vec<_>>(),
+            "prefix_cases": self.spaces.iter().map(|s| s.prefixes.len() as u64).sum::<u64>(),
+            "field_sites_enumerated": self.spaces.iter().map(|s| s.field_sites.len() as u64).sum::<u64>(),
+            "field_sites_located": self.seeds.iter().map(|s| s.sites.len() as u64).sum::<u64>(),
+            "values_per_site": VALS.len(),
+            "chunk_edit_cases": self.spaces.iter().map(|s| s.chunk_ops.len() as u64).sum::<u64>(),
+            "pair_cases": self.spaces.iter().map(|s| s.pairs() * 25).sum::<u64>(),
+            "cases": self.cum.last().copied().unwrap_or(0),
+        })
+    }
+}
+
+impl Space for FormatSpace {
+    fn len(&self) -> u64 {
+        *self.cum.last().unwrap()
+    }
+    fn describe(&self, i: u64) -> Value {
+        let (k, d) = self.locate(i);
+        let s = &self.seeds[k];
+        json!({"format": self.fmt.name(), "seed": s.name, "dev": s.describe_dev(&d)})
+    }
+    fn case_timeout(&self) -> u64 {
+        60
+    }
+    fn run(&self, i: u64) -> CaseResult {
+        let mut r = CaseResult::new();
+        let (k, d) = self.locate(i);
+        let s = &self.seeds[k];
+        let Some(input) = s.apply(&d) else {
+            r.outcome = "identical-to-seed".into();
+            r.count("cases_identical_to_seed_skipped", 1);
+            return r;
+        };
+        let (sc, sb) = self.sb();
+        let body = |rec: &mut Recorder| self.fmt.run(s, &input, rec, &sc.0);
+        let mut rep = sb.run(input.len(), false, &body);
+        let name = self.fmt.name();
+        // name the function of every panic site inside /repo (learnt once per site, then cached)
+        let syms = self.syms.get_or_init(SymCache::new);
+        if !sb.nofork && rep.panics.iter().any(|p| in_repo(&p.file) && syms.get(&p.file, p.line).is_none()) {
+            let rep2 = sb.run(input.len(), true, &body);
+            r.count("symbolizing_reruns", 1);
+            for p in &rep2.panics {
+                if in_repo(&p.file) && syms.get(&p.file, p.line).is_none() {
+                    syms.put(&p.file, p.line, &p.func);
+                }
+            }
+            for p in &rep.panics {
+                if in_repo(&p.file) && syms.get(&p.file, p.line).is_none() {
+                    syms.put(&p.file, p.line, "");
+                }
+            }
+        }
+        for p in &rep.panics {
+            let func = if in_repo(&p.file) { syms.get(&p.file, p.line).unwrap_or_default() } else { String::new() };
+            rep.viols.push((format!("{}: {}", p.ep, sandbox::panic_site(&p.file, &func, &p.msg)), format!("{}:{}: {}", p.file, p.line, p.msg)));
+        }
+        let mut out = String::new();
+        let (mut calls, mut oks, mut errs) = (0u64, 0u64, 0u64);
+        for e in &rep.eps {
+            calls += e.ok + e.err;
+            oks += e.ok;
+            errs += e.err;
+            out.push_str(&format!("{}:{};", e.ep, if e.ok > 0 && e.err > 0 { "ok+err" } else if e.ok > 0 { "ok" } else if e.err > 0 { "err" } else { "panic" }));
+        }
+        for (sym, det) in &rep.viols {
+            r.viol(format!("[{name}] {sym}"), det.clone());
+            out.push_str("V;");
+        }
+        r.count("entry_point_calls", calls + rep.viols.len() as u64);
+        r.count("entry_point_ok", oks);
+        r.count("entry_point_err", errs);
+        for (k, n) in &rep.notes {
+            r.count(k, *n);
+        }
+        r.err_return = oks == 0 && errs > 0 && rep.viols.is_empty();
+        let reached = if self.fmt.measures_consumption() { rep.max_consumed > 8 } else { input.len() > 8 };
+        r.nontrivial = reached;
+        if !reached {
+            r.count("cases_stopped_within_8_bytes", 1);
+        }
+        if d == Dev::None && (oks == 0 || !rep.viols.is_empty()) {
+            r.viol(format!("[{name}] harness: the unmodified seed is not accepted by the first entry point"), format!("seed {}: {}", s.name, out));
+        }
+        r.key = format!("{}/{}/{}", name, s.name, s.describe_dev(&d));
+        r.outcome = format!("{name}|{out}");
+        r
+    }
+}
+
+fn build(name: &str, _arg: &str, tier: Tier) -> Box<dyn Space> {
+    let _ = THOROUGH.set(tier == Tier::Thorough);
+    for f in all_formats() {
+        if f.name() == name {
+            return Box::new(FormatSpace::new(f, tier));
+        }
+    }
+    panic!("space {name}");
+}
+
+fn arg_after(flag: &str) -> Option<String> {
+    let a: Vec<String> = std::env::args().collect();
+    a.iter().position(|x| x == flag).and_then(|p| a.get(p + 1).cloned())
+}
+
+fn main() {
+    if std::env::args().any(|a| a == "--bench-sym") {
+        let rss = || std::fs::read_to_string("/proc/self/status").unwrap().lines().find(|l| l.starts_with("VmRSS")).unwrap().to_string();
+        println!("before: {}", rss());
+        let t = std::time::Instant::now();
+        sandbox::warm_symbolizer();
+        println!("cold symbolization: {:?}; {}", t.elapsed(), rss());
+        let t = std::time::Instant::now();
+        sandbox::warm_symbolizer();
+        println!("warm symbolization: {:?}; {}", t.elapsed(), rss());
+        return;
+    }
+    if std::env::args().any(|a| a == "--seeds") {
+        // list the seeds of every format (debug aid)
+        let _ = THOROUGH.set(std::env::args().any(|a| a == "thorough"));
+        for f in all_formats() {
+            let sp = FormatSpace::new(f, if thorough() { Tier::Thorough } else { Tier::Quick });
+            println!("{}: {}", sp.fmt.name(), serde_json::to_string_pretty(&sp.axes()).unwrap());
+        }
+        return;
+    }
+    let Mode::Supervisor(mut c) = start("C05", "exploration", build) else { return };
+    let only: Option<Vec<String>> = arg_after("--only-format").or_else(|| std::env::var("C05_FORMATS").ok()).map(|s| s.split(',').map(|x| x.trim().to_string()).collect());
+    c.rule = "One space per format (wdt, wdl, dbc, blp, skin, anim, m2, wmo_root, wmo_group, adt, ptch, codec, mpq; `--only-format a,b` or C05_FORMATS runs a subset). \
+        Case = (seed file written by the crate's own writer/builder, deviation). Deviations: none (the seed); every prefix length (thorough: all < 4 KiB, then every 97th, last 64; \
+        quick: all < 256, every 7th < 4 KiB, every 997th beyond, last 16); every located 32-bit field position (header dwords, magic/size/first payload dwords of every chunk incl. sub-chunks, \
+        table entries, for MPQ also the plaintext dwords inside the encrypted hash/block/HET/BET tables: decrypt, patch, re-encrypt) x 10 values {0,1,2^31-1,2^31,2^32-1,field-1,field+1,file_len,file_len-1,file_len+1} \
+        (quick: header-level sites all, the rest strided to 120 sites per seed; thorough: up to 1600 per seed); delete/duplicate/swap-with-next of every chunk (sizes of enclosing chunks kept consistent; quick strided to 24 chunks per seed); \
+        thorough only: all pairs of <= 40 header-level sites x 5x5 values {0,2^32-1,2^31,field+1,file_len} for two seeds per format. \
+        Every case runs all entry points of the format in a forked child under the monitors: no panic, no abort/signal, no stack overflow, return within 50 s (engine watchdog 60 s), \
+        no single allocation request and no peak live heap above 256 MiB + 4096 x input_len (requests above the limit are refused by the counting allocator). \
+        A case is non-trivial when the input differs from nothing-at-all in the sense that a parser read past byte 8 of it (counting reader; for path/slice-only APIs: input longer than 8 bytes); cases whose deviation leaves the seed unchanged are skipped and counted. Distinct by (format, seed, deviation)."
+        .into();
+    c.assume("seed files are valid inputs: each is accepted by the first entry point of its format (checked: case 0 of every seed is the unmodified seed)");
+    c.assume("a request above the limit is refused by the allocator (null), so the observed failure mode of such a request is an abort of the forked child; it is reported as an allocation-rule violation of the entry point that was running");
+    c.assume("time limit 50 s per case inside the child (alarm), all entry points of the case together");
+    let mut axes = serde_json::Map::new();
+    for name in FORMAT_NAMES {
+        if let Some(o) = &only {
+            if !o.iter().any(|x| x == name) {
+                continue;
+            }
+        }
+        let sp = FormatSpace::new(all_formats().into_iter().find(|f| f.name() == name).unwrap(), c.tier);
+        axes.insert(name.to_string(), sp.axes());
+        drop(sp);
+        c.run_space(name, "");
+    }
+    c.extra_cov.insert("axes".into(), Value::Object(axes));
+    if let Some(o) = &only {
+        c.extra_cov.insert("only_formats".into(), json!(o));
+    }
+    if let Ok(path) = std::env::var("C05_SURVEY") {
+        // symptom -> (count, lowest case) table for triage
+        let mut m: std::collections::BTreeMap<String, (u64, u64, String, String, String)> = Default::default();
+        for v in &c.agg.viols {
+            let e = m.entry(v.symptom.clone()).or_insert((0, u64::MAX, String::new(), String::new(), String::new()));
+            e.0 += 1;
+            if v.index < e.1 {
+                e.1 = v.index;
+                e.2 = v.space.clone();
+                e.3 = v.desc.to_string();
+                e.4 = v.detail.clone();
+            }
+        }
+        let mut s = String::new();
+        for (sym, (n, idx, space, desc, det)) in &m {
+            s.push_str(&format!("{n}\t{sym}\n\tfirst: {space} #{idx} {desc}\n\tdetail: {det}\n"));
+        }
+        let _ = std::fs::write(&path, s);
+    }
+    c.finish();
+}
